@@ -6,7 +6,7 @@
    sc; [run_san_sync] is the same programme over the synchronous view of the same reader. *)
 From Coq Require Import List NArith ZArith Bool.
 From MS Require Import Base.Bytes Base.Outcome Base.Cursor Base.Adapters Base.Async Base.AsyncSpec Base.AsyncProofs
-  Base.AsyncSan Base.AsyncSanProofs Mp4.San Gen.Consts.
+  Base.AsyncSan Base.AsyncSanProofs Base.AsyncSanLink Base.StackReader Base.StackSpec Mp4.San Gen.Consts.
 From MS Require Base.Prog.
 Import ListNotations.
 Open Scope N_scope.
@@ -39,3 +39,15 @@ Theorem C12_mp4_sanitizer_native_sched_indep : forall (cfg : config) (fuel : nat
                       snd (run_san_sync BOXHEADER_MAX_SIZE (pending_reader R) (sanitize_prog cfg fuel) s), sc').
 Proof. intros cfg fuel R s sc. exact (mp4_sanitizer_native_sched_indep cfg fuel R s sc). Qed.
 Print Assumptions C12_mp4_sanitizer_native_sched_indep.
+
+(* end to end (C11 + C12): mp4san::sanitize_async over an AsyncSkip-native reader that may answer Pending at every poll,
+   wrapping ANY adapter stack of Base/StackReader.v (Cursor / SeekSkipAdapter / BufReaders of any capacity / forwarding /
+   short-read oracles) over in-memory data, returns under EVERY Pending schedule what the abstract model mp4_sanitize returns
+   on those bytes - the function the theorems of C01-C05, C09, C10, C13 and C14 are about *)
+Theorem C12_mp4_async_is_model : forall (cfg : config) (fuel : nat) (ms : N) (st : stk) (data : bytes) (inp : Prog.input) (sc : sch),
+  stk_ok st -> blen data <= I64MAX -> ms_ok (blen data) ms -> inp_is inp data ->
+  exists s' sc',
+    run_san_sched BOXHEADER_MAX_SIZE (pending_reader (stk_reader ms st)) (sanitize_prog cfg fuel) (stack_init ms st data) sc
+    = Some (mp4_sanitize cfg true ms inp fuel, s', sc').
+Proof. intros cfg fuel ms st data inp sc. exact (mp4_async_native_is_model cfg fuel ms st data inp sc). Qed.
+Print Assumptions C12_mp4_async_is_model.
